@@ -12,16 +12,16 @@ import (
 	"crypto/tls"
 	"crypto/x509"
 	"crypto/x509/pkix"
-	"encoding/pem"
-	"math/big"
-	"strings"
 	"encoding/json"
+	"encoding/pem"
 	"fmt"
 	"io"
+	"math/big"
 	"net"
 	"os"
 	"runtime"
 	"strconv"
+	"strings"
 	"sync"
 	"sync/atomic"
 	"syscall"
@@ -36,33 +36,37 @@ import (
 	"github.com/versity/versitygw/s3api"
 	"github.com/versity/versitygw/s3api/middlewares"
 	"github.com/versity/versitygw/s3event"
+	"github.com/versity/versitygw/s3log"
 	"github.com/versity/versitygw/verifhook"
 )
 
 // Config describes one gateway process.
 type Config struct {
-	Root          string `json:"root"`
-	VersioningDir string `json:"versioning_dir,omitempty"`
-	SidecarDir    string `json:"sidecar_dir,omitempty"`
-	IAMDir        string `json:"iam_dir"`
-	NoTmp         bool   `json:"no_tmp,omitempty"`
-	ReadOnly      bool   `json:"read_only,omitempty"`
-	RootAccess    string `json:"root_access"`
-	RootSecret    string `json:"root_secret"`
-	Region        string `json:"region"`
-	IAMCacheOff   bool   `json:"iam_cache_off,omitempty"`
-	IAMCacheTTL   int    `json:"iam_cache_ttl,omitempty"`
-	WebhookURL    string `json:"webhook_url,omitempty"`
-	EventFilter   string `json:"event_filter,omitempty"`
-	ProxyEndpoint string `json:"proxy_endpoint,omitempty"`
-	ProxyAccess   string `json:"proxy_access,omitempty"`
-	ProxySecret   string `json:"proxy_secret,omitempty"`
-	ChownUID      bool   `json:"chown_uid,omitempty"`
-	ChownGID      bool   `json:"chown_gid,omitempty"`
-	Health        string `json:"health,omitempty"`
-	TLS           bool   `json:"tls,omitempty"` // serve HTTPS with a throw-away self-signed certificate
-	CertOut       string `json:"cert_out,omitempty"` // where to write that certificate (PEM), so clients can trust it
-	Env           map[string]string `json:"env,omitempty"` // extra environment of the gateway process
+	Root          string            `json:"root"`
+	VersioningDir string            `json:"versioning_dir,omitempty"`
+	SidecarDir    string            `json:"sidecar_dir,omitempty"`
+	IAMDir        string            `json:"iam_dir"`
+	NoTmp         bool              `json:"no_tmp,omitempty"`
+	ReadOnly      bool              `json:"read_only,omitempty"`
+	RootAccess    string            `json:"root_access"`
+	RootSecret    string            `json:"root_secret"`
+	Region        string            `json:"region"`
+	IAMCacheOff   bool              `json:"iam_cache_off,omitempty"`
+	IAMCacheTTL   int               `json:"iam_cache_ttl,omitempty"`
+	WebhookURL    string            `json:"webhook_url,omitempty"`
+	EventFilter   string            `json:"event_filter,omitempty"`
+	ProxyEndpoint string            `json:"proxy_endpoint,omitempty"`
+	ProxyAccess   string            `json:"proxy_access,omitempty"`
+	ProxySecret   string            `json:"proxy_secret,omitempty"`
+	ChownUID      bool              `json:"chown_uid,omitempty"`
+	ChownGID      bool              `json:"chown_gid,omitempty"`
+	Health        string            `json:"health,omitempty"`
+	TLS           bool              `json:"tls,omitempty"`      // serve HTTPS with a throw-away self-signed certificate
+	CertOut       string            `json:"cert_out,omitempty"` // where to write that certificate (PEM), so clients can trust it
+	Env           map[string]string `json:"env,omitempty"`      // extra environment of the gateway process
+
+	Debug     bool   `json:"debug,omitempty"`      // s3api.WithDebug (debug logger on stdout)
+	AccessLog string `json:"access_log,omitempty"` // S3 access log file (s3log file logger)
 
 	HookLog  string `json:"hook_log,omitempty"`  // ndjson file of hook hits
 	GateSock string `json:"gate_sock,omitempty"` // unix socket of the schedule controller
@@ -260,8 +264,19 @@ func Build(cfg Config) (*fiber.App, backend.Backend, auth.IAMService, error) {
 	if cfg.Health != "" {
 		opts = append(opts, s3api.WithHealth(cfg.Health))
 	}
+	if cfg.Debug {
+		opts = append(opts, s3api.WithDebug())
+	}
+	var alog s3log.AuditLogger
+	if cfg.AccessLog != "" {
+		ls, err := s3log.InitLogger(&s3log.LogConfig{LogFile: cfg.AccessLog})
+		if err != nil {
+			return nil, nil, nil, fmt.Errorf("access log: %w", err)
+		}
+		alog = ls.S3Logger
+	}
 	_, err = s3api.New(app, be, middlewares.RootUserConfig{Access: cfg.RootAccess, Secret: cfg.RootSecret},
-		"", cfg.Region, iam, nil, nil, evs, nil, opts...)
+		"", cfg.Region, iam, alog, nil, evs, nil, opts...)
 	if err != nil {
 		return nil, nil, nil, err
 	}
